@@ -115,6 +115,7 @@ def run_unit(unit, tmpl_path, repo_root, scratch, rlimit=None, extra_args=None, 
     res['cuts'] = asm.cuts
     res['clauses'] = asm.clauses
     res['dropped_total'] = asm.hits_total
+    res['conditions'] = asm.conditions
     cmd = ['verus', gen, '--output-json', '--time', '--error-format=json', '--multiple-errors', '5', '--num-threads', str(threads)]
     if rlimit:
         cmd += ['--rlimit', str(rlimit)]
